@@ -258,13 +258,18 @@ def t_nonlocal_and_slices():
     return total + merged[0] + merged[1] + merged[3]          # 7 + 1 + 10 + 20 = 38
 
 
+def t_getattr_default():
+    b = Box(1, 4)
+    return getattr(b, 'width', 100) + getattr((1, 2), 'ndim', 5) + getattr([], 'nope', 7) + getattr(3.5, 'shape', 20)          # 3 + 5 + 7 + 20 = 35
+
+
 def t_getters():
     first = operator.itemgetter(0)
     wid = operator.attrgetter('width')
     return first((8, 9)) + wid(Box(1, 4))              # 8 + 3 = 11
 '''
 
-EXPECT = {'t_namedtuple': 27, 't_subclass': 34, 't_partial': 42, 't_reduce': 63, 't_generators': 44, 't_sets_dicts': 74, 't_classes': 34, 't_getters': 11, 't_property_objects': 67, 't_itertools': 53, 't_lazy_pipeline': 45, 't_generator_fed_by_iterator': 33, 't_list_methods': 222, 't_del_and_unpack': 372, 't_recursion_and_empty_dict': 30, 't_nonlocal_and_slices': 38}
+EXPECT = {'t_namedtuple': 27, 't_subclass': 34, 't_partial': 42, 't_reduce': 63, 't_generators': 44, 't_sets_dicts': 74, 't_classes': 34, 't_getters': 11, 't_property_objects': 67, 't_itertools': 53, 't_lazy_pipeline': 45, 't_generator_fed_by_iterator': 33, 't_list_methods': 222, 't_del_and_unpack': 372, 't_recursion_and_empty_dict': 30, 't_nonlocal_and_slices': 38, 't_getattr_default': 35}
 
 
 FILE_SRC = '''
